@@ -34,7 +34,7 @@ CI_ALIAS = {"tar_ci": "tpr_ci", "trr_ci": "tnr_ci", "far_ci": "fpr_ci", "frr_ci"
 
 
 def n_cases(tier):
-    return 500 if tier == "quick" else 10000
+    return 4000 if tier == "quick" else 32000
 
 
 def gen_matrix(rng, kind):
@@ -67,6 +67,12 @@ def gen_one(rng, i, tier):
     for d in shape:
         nmat *= d
     mats = [gen_matrix(rng, kind) for _ in range(nmat)]
+    if kind != "int" and rng.random() < 0.3:
+        # weighted confusion matrices on a tiny (or huge) scale, e.g. built from importance weights ~1e-9: every rate,
+        # the NaN rule and the intervals' centres are scale-free, nothing may depend on an absolute magnitude
+        # (power-of-two factors: the scaling itself is exact)
+        k_ = rng.choice([2.0 ** -30, 2.0 ** -40, 2.0 ** -60, 2.0 ** -27, 2.0 ** 40])
+        mats = [[x * k_ for x in m] for m in mats]
     # alpha in (0,1): the usual levels, and levels so small that 1 - alpha/2 is not representable (isf vs ppf(1 - .))
     a1 = rng.choice([0.01, 0.05, 0.1, rng.uniform(0.001, 0.5), 10.0 ** (-rng.uniform(3, 25))])
     a2 = rng.choice([0.2, 0.5, 0.9, rng.uniform(a1, 0.999), 1 - 10.0 ** (-rng.uniform(3, 12))])
@@ -172,7 +178,10 @@ def build(inp) -> Case:
                           rates="[" + ",".join(_orat(float(x)) for x in rates) + "]", cnt=ql(cnt)))
         c1 = [x for nm in CI_NAMES for x in cis[("1", nm)].reshape(-1, 2)[k]]
         c2 = [x for nm in CI_NAMES for x in cis[("2", nm)].reshape(-1, 2)[k]]
-        lines.append(line("ci", m=ql(m), eps=q(Fraction(1, 10**9)), z1=q(zs["1"]), z2=q(zs["2"]),
+        # the interval's half-width z*sqrt(p(1-p)/n) grows without bound for fractional class totals n << 1 (weighted
+        # matrices): the tolerance follows the magnitude of the observed limits (the spec compares squared half-widths)
+        hw = max([abs(float(x)) for x in c1 + c2 if math.isfinite(float(x))] + [1.0])
+        lines.append(line("ci", m=ql(m), eps=q(Fraction(1, 10**9) * Fraction(max(1.0, hw)) ** 2), z1=q(zs["1"]), z2=q(zs["2"]),
                           ci1="[" + ",".join(_orat(float(x)) for x in c1) + "]",
                           ci2="[" + ",".join(_orat(float(x)) for x in c2) + "]"))
     inp["_evals"] = max(1, nmat) * (len(RATE_NAMES) + len(COUNT_NAMES) + 8)
@@ -204,7 +213,8 @@ def build(inp) -> Case:
                         ok = math.isnan(lo) and math.isnan(hi)
                     else:
                         d = zs[key] * math.sqrt(float(v)) if v >= 0 else math.nan
-                        ok = (not math.isnan(lo)) and abs(lo - (float(p) - d)) <= 1e-9 and abs(hi - (float(p) + d)) <= 1e-9
+                        tol_ = 1e-9 * (1.0 + abs(d)) if not math.isnan(d) else 1e-9
+                        ok = (not math.isnan(lo)) and abs(lo - (float(p) - d)) <= tol_ and abs(hi - (float(p) + d)) <= tol_
                     if not ok:
                         iss.append(Issue("DISAGREE", nm, f"{nm}({inp['mats'][k]}) impl=({lo},{hi}) model p={p} v={v} z={zs[key]}", f"metrics/{nm}"))
             for cl in ("ci", "mirror", "nested"):
